@@ -95,6 +95,11 @@ SEED = {
  "seedpatch-C06-g": ("C06", "/verif/seeded/C06-g/patch.diff"),
  "seedpatch-C04-g": ("C04", "/verif/seeded/C04-g/patch.diff"),
  "seedpatch-C01-g": ("C01", "/verif/seeded/C01-g/patch.diff"),
+ # round h (task-harness.md section 16)
+ "seedpatch-C03-h": ("C03", "/verif/seeded/C03-h/patch.diff"),
+ "seedpatch-C05-h": ("C05", "/verif/seeded/C05-h/patch.diff"),
+ "seedpatch-C06-h": ("C06", "/verif/seeded/C06-h/patch.diff"),
+ "seedpatch-C01-h": ("C01", "/verif/seeded/C01-h/patch.diff"),
 }
 ENV = dict(os.environ, GOFLAGS="-mod=mod", GOPROXY="off", GOSUMDB="off", GOTOOLCHAIN="local")
 BASE = "go test -vet=off -count=1 ./bint/... ./eth/... ./jrpc2/... ./shovel/config/... ./shovel/glf/... ./wctx/... ./wos/... ./wslog/..."
